@@ -321,3 +321,59 @@ Section P.
     checkb depth items [] ops (map (model_obs items) (trace init ops)) = true.
   Proof. intros Hd Hn. apply checkb_model; [exact Hd|exact Hn|apply good_init]. Qed.
 End P.
+
+(* ---- observation (outside the property): the hash of the code is ADDITIVE in the seed,
+        cms_hash(x, seed, width) = (uint32(hash x) + seed) mod width  in 64-bit arithmetic.
+        Two items then collide in one row iff they collide in every row, every row holds the same
+        multiset of cell values up to a cyclic shift, and all depth probes of an item are equal:
+        the minimum over rows is the value of any single row and depth adds no accuracy. ---- *)
+Lemma zmod_cancel a b c w : 0 < w -> ((a + c) mod w = (b + c) mod w <-> a mod w = b mod w).
+Proof.
+  intros Hw. split; intros H.
+  - assert (E : (a - b) mod w = 0).
+    { replace (a - b) with ((a + c) - (b + c)) by lia. rewrite Zminus_mod, H, Z.sub_diag. apply Z.mod_0_l. lia. }
+    rewrite Zminus_mod in E.
+    pose proof (Z.mod_pos_bound a w Hw). pose proof (Z.mod_pos_bound b w Hw).
+    apply Z.mod_divide in E; [|lia]. destruct E as [k Ek].
+    assert (k = 0) by nia. lia.
+  - rewrite (Z.add_mod a c), (Z.add_mod b c), H by lia. reflexivity.
+Qed.
+
+Lemma nmod_cancel (a b c w : N) : (w <> 0)%N -> (((a + c) mod w = (b + c) mod w)%N <-> (a mod w = b mod w)%N).
+Proof.
+  intros Hw.
+  pose proof (zmod_cancel (Z.of_N a) (Z.of_N b) (Z.of_N c) (Z.of_N w)) as H.
+  rewrite <- !N2Z.inj_add, <- !N2Z.inj_mod in H. rewrite !N2Z.inj_iff in H. apply H; lia.
+Qed.
+
+Section Additive.
+  Variables depth width : nat.
+  Variable h : N -> N.                 (* uint32(hash(x)) *)
+  Variable s : nat -> N.               (* hash_seeds[i] *)
+  Hypothesis width_pos : (1 <= width)%nat.
+  Definition pre_add (i : nat) (x : N) : N := (h x + s i)%N.
+
+  Lemma loc_add_eq i x y :
+    loc width pre_add i y = loc width pre_add i x <-> (h y mod N.of_nat width = h x mod N.of_nat width)%N.
+  Proof.
+    unfold loc, pre_add. rewrite N2Nat.inj_iff. apply nmod_cancel. lia.
+  Qed.
+
+  Lemma cw_rows_agree i i' x st :
+    cell_weight width pre_add i (loc width pre_add i x) st = cell_weight width pre_add i' (loc width pre_add i' x) st.
+  Proof.
+    unfold cell_weight. induction st as [|e st IH]; cbn [fold_right]; [reflexivity|]. rewrite IH.
+    assert (B : Nat.eqb (loc width pre_add i x) (loc width pre_add i (fst e))
+              = Nat.eqb (loc width pre_add i' x) (loc width pre_add i' (fst e))).
+    { apply Bool.eq_iff_eq_true. rewrite !Nat.eqb_eq.
+      split; intros H; symmetry in H; apply loc_add_eq in H; symmetry; apply loc_add_eq; exact H. }
+    rewrite B. reflexivity.
+  Qed.
+
+  Theorem additive_rows_agree ops x i i' : (i < depth)%nat -> (i' < depth)%nat ->
+    cell (run depth width pre_add ops) i (loc width pre_add i x)
+    = cell (run depth width pre_add ops) i' (loc width pre_add i' x).
+  Proof.
+    intros Hi Hi'. rewrite !(cell_char depth width pre_add width_pos) by assumption. apply cw_rows_agree.
+  Qed.
+End Additive.
